@@ -83,7 +83,16 @@ def check(run):
     decc = [a for a in q.field_accesses(orr, {H + '::m_num_client_in_bytes'}) if a.kind == 'compound' and a.method == '-=' and q.render(orr, a.site['rhs']) == 'req_len']
     run.check(len(pr_) == 1 and len(fw_) == 1 and q.precedes(orr, pr_[0], fw_[0]) and okpop and len(decc) == 1 and q.precedes(orr, fw_[0], popc[0]), 'R9', 'requests-in-order', H + '::on_read_request', orr.loc(),
               'requests are not taken from the front of the client buffer one at a time (parse, forward, pop exactly req_len)', 'parse -> forward -> pop req_len, repeated while a complete request is buffered')
-    loops = [n for n in orr.all_nodes() if n['k'] == 'while' and q.render(orr, n['cond']) == '(req_len >= 0)']
+    # any loop form whose condition is `req_len >= 0`, req_len being defined only by find_request_len over the client buffer
+    loops = [n for n in orr.all_nodes() if n['k'] in ('while', 'for', 'do') and is_node(n.get('cond')) and q.render(orr, n['cond']) in ('(req_len >= 0)', '(0 <= req_len)', '!(req_len < 0)')]
+    rl = [x for n in loops for x in walk(n['cond']) if x['k'] == 'ref' and x.get('name') == 'req_len']
+    if rl:
+        defs = q.local_defs(orr, rl[0]['did'])
+        if not defs or not all(q.render(orr, d).endswith('find_request_len(m_client_in_buffer, m_num_client_in_bytes)') for _s, d in defs):
+            loops = []
+        # the loop body must contain the forward and end with a fresh scan (a definition of req_len after the pop)
+        elif not (popc and any(q.precedes(orr, popc[0], s_) or orr.cfg._reaches(orr.cfg.node_block(popc[0]), orr.cfg.node_block(s_)) for s_, d in defs if s_['k'] != 'decl' or len(defs) == 1)):
+            loops = []
     run.check(len(loops) == 1, 'R4', 'pipelined-requests-drained', H + '::on_read_request', orr.loc(), 'buffered complete requests are not all forwarded before more is read', 'loops while a complete request is buffered')
 
     run.clause('(3) failed resolve / failed connect answer 503 and return before anything is sent to an origin')
@@ -93,9 +102,11 @@ def check(run):
         errs = [c for c in fn.calls() if (q.callee_name(c) or '') == H + '::error' and q.int_value(c['args'][0]) == 503]
         fw = [c for c in fn.calls() if (q.callee_name(c) or '') == H + '::' + forward]
         okk = bool(errs) and bool(fw)
+        # a 503 answer is reached on every path that leaves an `ec` test through its true edge
+        ok_ec, n_ec = q.edge_must_pass(fn, 'ec', True, errs)
+        okk = okk and ok_ec and n_ec > 0
         for e in errs:
-            under = [a for a in fn.ancestors(e) if a['k'] == 'if' and 'ec' in q.render(fn, a['cond']) and any(y is e for y in walk(a['then']))]
-            okk = okk and bool(under) and not any(fn.cfg._reaches(fn.cfg.node_block(e), fn.cfg.node_block(x)) for x in fw)
+            okk = okk and not any(fn.cfg._reaches(fn.cfg.node_block(e), fn.cfg.node_block(x)) for x in fw)
         for x in fw:
             g = [(q.render(fn, a), p) for a, p in q.guards_at(fn, x)]
             okk = okk and any(('ec' in t) and not p for t, p in g)
